@@ -76,6 +76,8 @@ pub enum Malform {
     WsBeforeColon { at: usize, ws: String },
     /// the Content-Length header's value replaced (header index `at`)
     BadContentLength { at: usize, value: String },
+    /// header `at` is a further Content-Length line whose (valid) value differs from another one's
+    ContentLengthLinesDisagree { at: usize },
 }
 
 #[derive(Clone, Debug, PartialEq, Eq, Serialize, Deserialize)]
